@@ -50,7 +50,7 @@ func tarProbe(b []byte, e *deb.ArEntry, m *memObs) {
 		}
 	}
 	out := "hang"
-	fin := mc.WithTimeout(HangGuard, func() {
+	fin := mc.WithTimeout(HangGuard, func() { // only stored / gzip / unknown-extension members get here
 		res := ""
 		if p, msg := mc.Guard(func() {
 			if _, err := e.Data.Seek(0, io.SeekStart); err != nil {
